@@ -51,6 +51,8 @@ pub enum FaultKind {
     Error,
     ExtraByte,
     ExtraChunk,
+    /// An error after the last requested byte has been delivered.
+    ErrorAfterEnd,
 }
 
 #[derive(Clone, Copy, Debug, PartialEq, Eq, Serialize, Deserialize)]
@@ -72,6 +74,10 @@ pub struct EntitySpec {
     pub plan: Vec<PStep>,
     #[serde(default)]
     pub faults: Vec<Fault>,
+    /// Steps (Empty / Pending only) every range stream performs after its last data byte and
+    /// before its end (or its after-the-end fault).
+    #[serde(default)]
+    pub tail: Vec<PStep>,
 }
 
 impl EntitySpec {
@@ -83,6 +89,7 @@ impl EntitySpec {
             headers: vec![],
             plan: vec![PStep::Rest],
             faults: vec![],
+            tail: vec![],
         }
     }
     pub fn etag_is_strong(&self) -> bool {
@@ -138,6 +145,7 @@ struct PlanStream {
     data_chunks: u32,
     fault: Option<Fault>,
     extra_chunk_done: bool,
+    tail_idx: usize,
     done: bool,
 }
 
@@ -180,7 +188,23 @@ impl Stream for PlanStream {
                 }
             }
             if this.pos == this.end {
+                if this.tail_idx < this.spec.tail.len() && !this.extra_chunk_done {
+                    let st = this.spec.tail[this.tail_idx];
+                    this.tail_idx += 1;
+                    match st {
+                        PStep::Pending => {
+                            cx.waker().wake_by_ref();
+                            return Poll::Pending;
+                        }
+                        _ => return Poll::Ready(Some(Ok(Bytes::new()))),
+                    }
+                }
                 if let Some(f) = this.fault {
+                    if f.kind == FaultKind::ErrorAfterEnd {
+                        this.done = true;
+                        this.log.lock().unwrap().faults_reached.push(f);
+                        return Poll::Ready(Some(Err(HarnessError::Injected(f.call * 1000 + 999))));
+                    }
                     if f.kind == FaultKind::ExtraChunk && !this.extra_chunk_done {
                         this.extra_chunk_done = true;
                         this.log.lock().unwrap().faults_reached.push(f);
@@ -248,6 +272,7 @@ impl http_serve::Entity for ModelEntity {
             data_chunks: 0,
             fault,
             extra_chunk_done: false,
+            tail_idx: 0,
             done: false,
         })
     }
